@@ -1100,7 +1100,13 @@ func (p *Parser) evaluateVarDefinition(ctx context) (Statement, error) {
 		if global {
 			storedName = buildPrefixedName(prefix, name)
 		}
-		variables = append(variables, NewVariable(storedName, specifiedType, global, isPublic(name)))
+		variableType := specifiedType
+
+		// A variable which already exists (a, b := ... with an existing a) keeps its type.
+		if exists && variableType.DataType() == DATA_TYPE_UNKNOWN {
+			variableType = variableValueType
+		}
+		variables = append(variables, NewVariable(storedName, variableType, global, isPublic(name)))
 	}
 	values := []Expression{}
 
